@@ -221,12 +221,12 @@ func funcInfoOf(name string) funcInfo {
 //
 //@ func (*converter).ElseIfStart
 //@   requires[C13,C16] inv: len(c.ifs) > 0
-//@   ensures[C05,C16] leaves-to-own-end-label: appended(specBlock(c), old(specBlockBefore(c)), "goto " + c.ifs[len(c.ifs) - 1].label, ") else if \"" + condition + "\" equ \"1\" (") && result == nil
+//@   ensures[C05,C16] leaves-to-own-end-label: appended(specBlock(c), old(specBlockBefore(c)), "goto " + old(c.ifs)[len(old(c.ifs)) - 1].label, ") else if \"" + condition + "\" equ \"1\" (") && result == nil && c.ifs == old(c.ifs) && c.ifCounter == old(c.ifCounter)
 //@   ensures[C05,C16] inv-kept: routeOK(c) && c.ifs == old(c.ifs)
 //
 //@ func (*converter).ElseStart
 //@   requires[C13,C16] inv: len(c.ifs) > 0
-//@   ensures[C05,C16] leaves-to-own-end-label: appended(specBlock(c), old(specBlockBefore(c)), "goto " + c.ifs[len(c.ifs) - 1].label, ") else (") && result == nil
+//@   ensures[C05,C16] leaves-to-own-end-label: appended(specBlock(c), old(specBlockBefore(c)), "goto " + old(c.ifs)[len(old(c.ifs)) - 1].label, ") else (") && result == nil && c.ifs == old(c.ifs) && c.ifCounter == old(c.ifCounter)
 //@   ensures[C05,C16] inv-kept: routeOK(c) && c.ifs == old(c.ifs)
 //
 //@ func (*converter).IfEnd
@@ -251,12 +251,14 @@ func funcInfoOf(name string) funcInfo {
 //@   ensures[C05,C16] inv-kept: routeOK(c) && forsFresh(c) && endsFresh(c)
 //
 //@ func (*converter).Break
-//@   ensures[C05,C16] leaves-innermost-loop: len(old(c.endLabels)) > 0 ==> appended(specBlock(c), old(specBlockBefore(c)), "goto " + c.endLabels[len(c.endLabels) - 1]) && result == nil && routeOK(c)
+//@   ensures[C05,C16] leaves-innermost-loop: len(old(c.endLabels)) > 0 ==> appended(specBlock(c), old(specBlockBefore(c)), "goto " + old(c.endLabels)[len(old(c.endLabels)) - 1]) && result == nil && routeOK(c)
+//@   ensures[C05,C16] allocates-no-label-and-opens-nothing: sameExcept(c, old(c), "globalCode", "functionsCode", "previousFunctionName")
 //@   ensures[C13,C16] no-open-loop-is-an-error-not-a-jump: len(old(c.endLabels)) == 0 ==> result != nil && sameExcept(c, old(c))
 //
 //@ func (*converter).Continue
 //@   requires[C13,C16] inv: len(c.fors) > 0
-//@   ensures[C05,C16] restarts-innermost-loop: appended(specBlock(c), old(specBlockBefore(c)), "goto " + c.fors[len(c.fors) - 1].label) && result == nil && routeOK(c)
+//@   ensures[C05,C16] restarts-innermost-loop: appended(specBlock(c), old(specBlockBefore(c)), "goto " + old(c.fors)[len(old(c.fors)) - 1].label) && result == nil && routeOK(c)
+//@   ensures[C05,C16] allocates-no-label-and-opens-nothing: sameExcept(c, old(c), "globalCode", "functionsCode", "previousFunctionName")
 //
 //@ func (*converter).Nop
 //@   ensures[C16] non-empty-body: appended(specBlock(c), old(specBlockBefore(c)), "rem No operation") && result == nil && routeOK(c)
